@@ -265,6 +265,7 @@ type RefLogger struct {
 	Stack   bool
 	GoCtx   int
 	Writer  int
+	Discard bool // the destination is io.Discard / nil: nothing reaches the recording writers
 	Sampler bool
 }
 
@@ -382,6 +383,13 @@ func ApplyStep(w *World, lg zerolog.Logger, m RefLogger, s Step) (zerolog.Logger
 	case "Output":
 		m.Writer = (m.Writer + 1) % len(w.Writers)
 		lg = lg.Output(w.Writers[m.Writer])
+		m.Discard = false
+	case "OutputDiscard": // a logger that writes nowhere is still a logger: hooks, callbacks and marshalers run
+		lg = lg.Output(io.Discard)
+		m.Discard = true
+	case "OutputNil":
+		lg = lg.Output(nil)
+		m.Discard = true
 	case "Sample":
 		lg = lg.Sample(admitAll{})
 		m.Sampler = true
@@ -571,6 +579,9 @@ func ExpectEvent(m RefLogger, en Entry, fs []Field, fi Final) Expected {
 	}
 	if msg != "" {
 		ex.Fields = append(ex.Fields, KV{Key: zerolog.MessageFieldName, Exp: S(msg)})
+	}
+	if m.Discard {
+		ex.Written = false // (the hook calls above are still expected)
 	}
 	return ex
 }
